@@ -92,6 +92,33 @@ func corpus() []scenario {
 		st(v, "sa 2 sk 2 3"),
 		rv, rv,
 	}
+	dis := func(op, version, diff string) Step { return Step{Op: op, Version: version, Diff: diff} }
+	// operations juno must discard, each deleting / overwriting live data, between accepted blocks;
+	// readers opened at every step are held and re-queried afterwards
+	discarded := []Step{
+		st(v, "sa 104 sk 2 5 sk 3 6 d 104 c000 sa 1 sk 2 7"),
+		st(v, "sa 104 sk 4 1 n 104 1 d 105 c001 sa 105 sk 2 9"),
+		dis("simulate", v, "sa 104 sk 2 0 sk 3 0 sk 4 0 n 104 2 r 104 c003 sa 105 sk 2 0"),
+		dis("store-dropped", v, "sa 104 sk 2 0 sk 3 8 n 104 2 r 104 c003 sa 1 sk 2 0 sk 3 1"),
+		dis("store-wrong-root", v, "sa 104 sk 3 0 sa 105 sk 2 0 d 106 c002"),
+		dis("store-late-fail", "0.14.1", "m "+hx(&s1.hash)+" "+hx(&s1.casm2)+" sa 104 sk 2 0 sk 4 0"),
+		Step{Op: "revert-dropped"},
+		st(v, "sa 104 sk 2 0 n 104 2"),
+		dis("simulate", v, "sa 104 sk 3 0 sk 4 0 sa 105 sk 2 0"),
+		Step{Op: "revert-dropped"},
+		rv,
+		dis("store-dropped", v, "sa 104 sk 2 0 sk 3 0 sk 4 0"),
+		st(v, "sa 104 sk 4 0"),
+	}
+	// an address both deployed and replaced by ONE diff: not a well-formed Starknet state diff (an
+	// address is "deployed" iff it had no class before the block), but juno stores such a block
+	deployReplace := []Step{
+		st(v, "d 104 c000"),
+		st(v, "d 106 c000 r 106 c003 n 106 1"),
+		st(v, ""),
+		rv, rv,
+		st(v, "d 106 c001 r 106 c002"),
+	}
 	var out []scenario
 	add := func(name string, srcNew bool, dst []bool, drainOK bool, steps []Step) {
 		out = append(out, scenario{cfg: Config{Name: name, SrcNew: srcNew, Dst: dst, AllowDrain: drainOK}, steps: steps})
@@ -102,6 +129,9 @@ func corpus() []scenario {
 	add("system-contracts", true, both, false, system)
 	add("classes", false, both, false, classes)
 	add("classes/src-new", true, both, false, classes)
+	add("discarded/src-legacy", false, both, false, discarded)
+	add("discarded/src-new", true, both, false, discarded)
+	add("deploy-and-replace-in-one-diff", false, both, false, deployReplace)
 	add("drain/new", true, []bool{true}, true, drain)
 	add("drain/legacy", false, []bool{false}, true, drain)
 	add("drain-revert/new", true, []bool{true}, true, drainRevert)
